@@ -8,7 +8,8 @@ props = [json.loads(l)["id"] for l in (V / "properties.jsonl").read_text().split
 checks, na = [], []
 for pid in props:
     f = V / "manifest.d" / f"{pid}.json"
-    if not f.exists():
+    ready = (V / "manifest.d" / "ready.txt").read_text().split()
+    if not f.exists() or pid not in ready:
         na.append({"property_id": pid, "reason": "not yet claimed: model/theorems/correspondence for this property are not built yet (work in progress, see DESIGN.md §11)"})
         continue
     d = json.loads(f.read_text())
